@@ -1,7 +1,7 @@
 """C03 System W equals the preferred-structure definition, both back-ends (strict mode)."""
 from props import answers
 
-THEOREMS = ["InfOCF.C03_main", "InfOCF.C03_wless_spec", "InfOCF.C03_spec_form", "InfOCF.C03_refuse", "InfOCF.algWCode_eq_algW", "InfOCF.algW_eq_specW"]
+THEOREMS = ["InfOCF.C03_main", "InfOCF.C03_wless_spec", "InfOCF.C03_spec_form", "InfOCF.C03_refuse", "InfOCF.algWCode_eq_algW", "InfOCF.algW_eq_specW", "InfOCF.C03_z3enum", "InfOCF.C15_loop_exact"]
 RULE = ("random strongly consistent bases (half of them defaults-with-exceptions structures with several incomparable minimal falsification sets per layer) x 6 queries x {rc2, z3}; non-trivial = contingent query, >= 2 layers and a tie (a minimal falsification set shared by verifying and falsifying worlds) at the top layer; distinct by (base, query)")
 ASSUMPTIONS = ["world enumeration bounds the correspondence to <= 7 atoms; the theorem has no bound"]
 CONFIGS = [("system-w", "rc2"), ("system-w", "z3")]
